@@ -81,7 +81,7 @@ AsmWhy(r) ==
         THEN {"errspan"} ELSE {})
   \cup (IF ~ok /\ ~wf /\ r.parse = "ok" /\ r.panic = 0 /\ r.err.qpanic = 0 /\ IsLabelKind(r.res) /\
            \E j \in 1..Len(r.err.spans) : SpanOK(r.err.spans[j], Len(src)) /\
-                Upper(SubBytes(src, r.err.spans[j])) \notin OffendingLabels(prog, X, D, r.res)
+                Upper(DecodeUtf8(SubBytes(src, r.err.spans[j]))) \notin OffendingLabels(prog, X, D, r.res)
         THEN {"errlabel"} ELSE {})
      \* ---- C23 / C24: queries on the symbol table
   \cup (IF p1ok /\ wf /\ \E j \in 1..Len(r.q) :
@@ -92,8 +92,8 @@ AsmWhy(r) ==
                    \/ (key \in keys) # (q.addr # -1)
                    \/ (key \in keys) # (q.src[1] # -1)
                    \/ key \in keys /\ q.addr # AddrOfKey(D, key)
-                   \/ key \in keys /\ LET fs == FirstSrcOfKey(D, key) IN q.src # <<fs, fs + Len(q.arg)>>
-                   \/ key \in keys /\ dbg /\ Upper(SubBytes(src, q.src)) # key
+                   \/ key \in keys /\ LET fs == FirstSrcOfKey(D, key) IN q.src # <<fs, fs + Utf8Len(key)>>
+                   \/ key \in keys /\ dbg /\ Upper(DecodeUtf8(SubBytes(src, q.src))) # key
               [] q.q = "addr" ->
                    \/ q.panic = 1
                    \/ (q.has = 1) # (\E d \in D : d[2] = q.arg)
@@ -177,7 +177,7 @@ LinkWhy(r) ==
           [] name = "rt-txt" -> j.rt.txt.panic = 0 /\ (j.rt.txt.ok # 1 \/ j.rt.txt.eq # 1 \/ ObjOfJson(j.rt.txt.obj) # o)
           [] name = "load-conf" -> j.load.panic = 0 /\ j.load.res # (IF Unresolved(o) THEN "UnresolvedExternal" ELSE "ok")
           [] name = "dbg-labels" -> o.dbg /\ (k <= nf \/ alldbg) /\ \E x \in Rng(j.dbgq.labels) :
-                                       x[2] < 0 \/ ~SpanOK(<<x[2], x[3]>>, Len(o.src)) \/ Upper(SubBytes(o.src, <<x[2], x[3]>>)) # x[1]
+                                       x[2] < 0 \/ ~SpanOK(<<x[2], x[3]>>, Len(o.src)) \/ Upper(DecodeUtf8(SubBytes(o.src, <<x[2], x[3]>>))) # x[1]
           [] OTHER -> FALSE
       ObjNames == {"panic", "rt-bin", "rt-txt", "load-conf", "dbg-labels"}
   IN
